@@ -169,9 +169,57 @@ def bounded_checks(reg, tier, seed):
         n += 1
         if xm(xm(d, m), m) != d:
             bad.append({'d': list(d), 'm': list(m)})
-    return [{'name': 'xormask lemmas (involution, length, byte range)', 'bounded': True,
+    sweep = native_sweep(tier, rnd)
+    return [sweep, {'name': 'xormask lemmas (involution, length, byte range)', 'bounded': True,
              'bound': 'all byte strings of length <= 2 x 6 masks, plus random strings up to 200 bytes',
              'cases': n, 'violations': bad[:3]}]
+
+
+def native_sweep(tier, rnd):
+    """Bounded stand-in and counterexample finder for what the solvers leave open (strings of
+    length >= 65535 are out of reach of model construction): the real build()/parse() against the
+    independent RFC 6455 encoder of replay/specimpl.py at every length-encoding boundary."""
+    from proxy.http.websocket.frame import WebsocketFrame
+    from replay.specimpl import wsframe
+    lens = [0, 1, 2, 124, 125, 126, 127, 128, 65534, 65535, 65536, 65537]
+    if tier != 'quick':
+        lens += list(range(3, 124, 7)) + [70000, 131072, 1 << 20]
+    bad = []
+    n = 0
+    for L in lens:
+        payload = bytes(rnd.randrange(256) for _ in range(min(L, 4096))) * (L // 4096 + 1)
+        payload = payload[:L]
+        for flags in range(16) if L < 200 else (0, 15, 8):
+            for op in ((0, 1, 2, 8, 9, 10, 15) if L < 200 else (2,)):
+                for masked in (False, True):
+                    f = WebsocketFrame()
+                    f.fin, f.rsv1, f.rsv2, f.rsv3 = bool(flags & 8), bool(flags & 4), bool(flags & 2), bool(flags & 1)
+                    f.opcode, f.masked, f.data = op, masked, payload
+                    f.mask = bytes(rnd.randrange(256) for _ in range(4)) if masked else None
+                    want = wsframe(f.fin, f.rsv1, f.rsv2, f.rsv3, op, masked, f.mask or b'', payload)
+                    n += 1
+                    case = {'len': L, 'flags': flags, 'opcode': op, 'masked': masked}
+                    try:
+                        got = f.build()
+                    except Exception as e:      # noqa
+                        bad.append(dict(case, what='build raised %r' % (e,)))
+                        continue
+                    if got != want:
+                        bad.append(dict(case, what='build differs from RFC 6455 encoding', got=got[:12].hex(), want=want[:12].hex()))
+                        continue
+                    g = WebsocketFrame()
+                    tail = b'NEXT'
+                    try:
+                        rest = g.parse(want + tail)
+                    except Exception as e:      # noqa
+                        bad.append(dict(case, what='parse raised %r' % (e,)))
+                        continue
+                    if rest != tail or (g.data or b'') != payload or g.opcode != op or g.masked != masked \
+                            or (g.fin, g.rsv1, g.rsv2, g.rsv3) != (f.fin, f.rsv1, f.rsv2, f.rsv3):
+                        bad.append(dict(case, what='parse does not invert the RFC 6455 encoding'))
+    return {'name': 'native boundary sweep build/parse vs independent RFC 6455 encoder', 'bounded': True,
+            'bound': 'payload lengths %s x flag/opcode/mask combinations' % lens[:12], 'cases': n,
+            'violations': bad[:3]}
 
 
 def replay(ob, reg):
